@@ -27,7 +27,7 @@ class C07(Prop):
         for _ in range(n):
             key, lkey, rkey, l, r = gen_pair(rng, hashable=True)
             missing = rng.choice([None, None, 'NA'])
-            lp, rp = rng.choice([(None, None), (None, None), ('l_', 'r_')])
+            lp, rp = rng.choice([(None, None), (None, None), ('l_', 'r_'), (None, 'r_'), ('l_', None)])
             for kn in HKINDS:
                 if kn == 'antijoin' and any(len(x) != len(t[0]) for t in (l, r) for x in t[1:]):
                     continue
@@ -45,6 +45,14 @@ class C07(Prop):
                 # out copies of its values (as shelve does): judged against an independent grouping of the rows
                 if isinstance(k, str) and len(set(t[0])) == len(t[0]):
                     yield Case('lookup_family', (k, t))
+
+        # lookupone: the first row of a key wins, also when its value is None / falsy; strict raises on the repeat
+        for first in (None, 0, '', False):
+            tl = (('id', 'v'), ('a', first), ('b', 1), ('a', 2), ('c', None), ('c', None), ('b', first))
+            for strict in (False, True):
+                yield Case('lookup', (True, strict, 'id', 'v', tl))
+            yield Case('lookup', (False, False, 'id', 'v', tl))
+            yield Case('lookup_family', ('id', tl))
 
     def expand(self, case):
         if case.op == 'lookup_family':
